@@ -5,7 +5,7 @@ CONSTANTS
   Kind = "onepai"
   Atoms <- AtomsList
   Prefix <- PfxNone
-  MaxLen = 4
+  MaxLen = 5
   Cfgs <- CfgsPAI1
   Junk = 34
   EmitOn = TRUE
